@@ -114,19 +114,23 @@ def run(tier):
         wide = [n for n in bins if n.startswith('w128') or n.startswith('w64')]
         refcheck(rep, bins[(wide or list(bins))[0]])
 
-    budget = 75 if tier == 'quick' else 780   # hard stop for the sum of all runs (the tier must terminate by itself)
+    # The tier must terminate by itself: the harnesses stop taking new cases at C01_DEADLINE (and still print their
+    # statistics); run_sharded's kill deadline is only the backstop behind that.
+    budget = int(os.environ.get('C01_BUDGET', 0)) or (80 if tier == 'quick' else 840)
+    budget = max(budget, int(time.time() - rep.t0) + 25)   # builds on an overloaded machine must not eat the whole window
+    env = {'C01_DEADLINE': str(int(rep.t0 + budget))}
     per_cfg = {}
     for c in mx:
         name = cfg_name(*c)
         if name not in bins:
             continue
         left = budget - (time.time() - rep.t0)
-        if left < 3:
+        if left < 1:
             rep.exhaustive = False
             rep.notes.append('time budget exhausted before configuration %s' % name)
             continue
         t1 = time.time()
-        core.run_sharded(rep, bins[name], tier, config=name, deadline_s=left)
+        core.run_sharded(rep, bins[name], tier, config=name, deadline_s=left + 25, env=env)
         per_cfg[name] = round(time.time() - t1, 1)
         rep.configs.append({'name': name, 'digit_bits': c[0], 'BN_CC_MULL_DIV': c[1], 'cc': c[2], 'opt': c[3],
                             'scope': SCOPE_TXT[c[4]], 'wall_s': per_cfg[name]})
@@ -139,7 +143,7 @@ def run(tier):
             rep.notes.append('time budget exhausted before %s' % name)
             continue
         t1 = time.time()
-        core.run_sharded(rep, b, tier, config=name, deadline_s=left)
+        core.run_sharded(rep, b, tier, config=name, deadline_s=left + 25, env=env)
         rep.configs.append({'name': name, 'digit_bits': 8, 'BN_CC_MULL_DIV': i == 0, 'cc': 'gcc', 'opt': '-O2 (no ASan)',
                             'scope': 'all 2^32 operand pairs below 2^16 for add/sub/mult/div/cmp, native uint64_t oracle',
                             'wall_s': round(time.time() - t1, 1)})
@@ -153,9 +157,15 @@ def run(tier):
     other = [n for n in rep.notes if not ('=' in n and n.split('=')[1].isdigit())]
     if agg.get('ref_overflow') or agg.get('ref_mismatch'):
         rep.harness_errors.append('reference integers overflowed or disagreed with native arithmetic: %r' % agg)
+    if agg.get('deadline_skipped'):
+        rep.exhaustive = False
     rep.notes = other + skipped + ['%s=%d' % kv for kv in sorted(agg.items())]
     calls = sum(v.get('calls', 0) for v in rep.stats.values())
     rep.extra['evaluations'] = int(calls)            # library calls whose outcome was compared with the oracle
     rep.extra['cases'] = int(rep.total('run'))
     rep.extra['configurations_skipped'] = skipped
+    if calls == 0 or rep.total('nontrivial') < 2:
+        import sys
+        sys.stderr.write('HARNESS-ERROR: nothing was evaluated (machine too loaded for the time budget, or no configuration built): %r\n' % (rep.harness_errors + rep.notes[-5:],))
+        sys.exit(2)
     rep.finish(core.make_replayer(lambda cfg: bins[cfg], tier))
